@@ -1,4 +1,190 @@
-import NriModel.Basic
-/-! Property theorems for C01 — placeholder until the model is written. -/
+import NriModel.Lemmas.ResultSteps
+/-!
+# C01 — two plugins setting the same container item is always flagged as a conflict
+
+Model: `Nri.Result` (pkg/adaptation/result.go + the request loops of adaptation.go), with the
+behaviour after the `fix:` commits (`Quirks.fixed`). Spec vocabulary: `Nri.Ledger`
+(`setsOn`, `removesOn`: what a response sets / marks for removal, read off the response).
+
+The statements quantify over every state the request can be in — any original container,
+any runtime update request, any ledger, any reply collected so far — over every number of
+plugins before, between and after the two colliding ones, and over every content of every
+response. "Strictly sets" leaves out updates marked ignore-failure (C05: those are dropped
+instead of failing the request).
+-/
 namespace Nri.Props.C01
+open Nri Nri.Api Nri.Result Nri.Ledger
+
+/-- **C01.** If plugin `pi` and a later plugin `pj` both (strictly) set item `it` of
+    container `c`, `pj` does not itself mark it for removal, and no plugin in between marks
+    it for removal, the request fails — whatever the plugins before, between and after do
+    and whatever the request contained. -/
+theorem C01_collision_flagged (st : State)
+    (pre mid post : List (Plugin × Option Response)) (pi pj : Plugin) (ri rj : Response)
+    (c : Cid) (it : Item)
+    (hsi : it ∈ setsOn true st.kind ri c) (hsj : it ∈ setsOn true st.kind rj c)
+    (hnj : it ∉ removesOn st.kind rj c)
+    (hmid : ∀ p r, (p, some r) ∈ mid → it ∉ removesOn st.kind r c) :
+    ∃ e, run Quirks.fixed st (pre ++ (pi, some ri) :: (mid ++ (pj, some rj) :: post)) = .error e := by
+  rw [run_append]
+  cases h1 : run Quirks.fixed st pre with
+  | error e => exact ⟨e, rfl⟩
+  | ok st1 =>
+    have hk1 := run_kind _ st st1 pre h1
+    simp only [run]
+    cases h2 : apply Quirks.fixed st1 pi ri with
+    | error e => exact ⟨e, rfl⟩
+    | ok st2 =>
+      have hk2 := apply_kind _ st1 st2 pi ri h2
+      obtain ⟨w, hw⟩ := apply_owns st1 st2 pi ri h2 c it (by rw [hk1]; exact hsi)
+      simp only []
+      rw [run_append]
+      cases h3 : run Quirks.fixed st2 mid with
+      | error e => exact ⟨e, rfl⟩
+      | ok st3 =>
+        have hk3 := run_kind _ st2 st3 mid h3
+        have hw3 := run_keeps st2 st3 mid h3 c it w hw (by
+          intro p r hm; rw [hk2, hk1]; exact hmid p r hm)
+        simp only [run]
+        obtain ⟨e, he⟩ := apply_fails_of_owned st3 pj rj c it w hw3
+          (by rw [hk3, hk2, hk1]; exact hsj) (by rw [hk3, hk2, hk1]; exact hnj)
+        exact ⟨e, by rw [he]⟩
+
+/-- The same for the three request kinds the runtime can issue, from the state the collector
+    starts in (`collectCreateContainerResult` …): every original container, every requested
+    resources. -/
+theorem C01_create (c0 : Container) (pre mid post) (pi pj ri rj) (c : Cid) (it : Item)
+    (hsi : it ∈ setsOn true (.create c0.id) ri c) (hsj : it ∈ setsOn true (.create c0.id) rj c)
+    (hnj : it ∉ removesOn (.create c0.id) rj c)
+    (hmid : ∀ p r, (p, some r) ∈ mid → it ∉ removesOn (.create c0.id) r c) :
+    ∃ e, run Quirks.fixed (initCreate c0) (pre ++ (pi, some ri) :: (mid ++ (pj, some rj) :: post)) = .error e :=
+  C01_collision_flagged (initCreate c0) pre mid post pi pj ri rj c it hsi hsj hnj hmid
+
+theorem C01_update (id : Cid) (req : Resources) (pre mid post) (pi pj ri rj) (c : Cid) (it : Item)
+    (hsi : it ∈ setsOn true (.update id) ri c) (hsj : it ∈ setsOn true (.update id) rj c) :
+    ∃ e, run Quirks.fixed (initUpdate id req) (pre ++ (pi, some ri) :: (mid ++ (pj, some rj) :: post)) = .error e :=
+  C01_collision_flagged (initUpdate id req) pre mid post pi pj ri rj c it hsi hsj
+    (by simp [removesOn, initUpdate]) (by intro p r _; simp [removesOn, initUpdate])
+
+theorem C01_stop (pre mid post) (pi pj ri rj) (c : Cid) (it : Item)
+    (hsi : it ∈ setsOn true .stop ri c) (hsj : it ∈ setsOn true .stop rj c) :
+    ∃ e, run Quirks.fixed initStop (pre ++ (pi, some ri) :: (mid ++ (pj, some rj) :: post)) = .error e :=
+  C01_collision_flagged initStop pre mid post pi pj ri rj c it hsi hsj
+    (by simp [removesOn, initStop]) (by intro p r _; simp [removesOn, initStop])
+
+/-- **No silent merge.** Read the other way round: when a request succeeds, no item was
+    (strictly) set twice without a removal from the later setter back to the earlier one. -/
+theorem C01_no_silent_merge (st st' : State)
+    (pre mid post : List (Plugin × Option Response)) (pi pj : Plugin) (ri rj : Response)
+    (c : Cid) (it : Item)
+    (hok : run Quirks.fixed st (pre ++ (pi, some ri) :: (mid ++ (pj, some rj) :: post)) = .ok st')
+    (hsi : it ∈ setsOn true st.kind ri c) (hsj : it ∈ setsOn true st.kind rj c) :
+    it ∈ removesOn st.kind rj c ∨ ∃ p r, (p, some r) ∈ mid ∧ it ∈ removesOn st.kind r c := by
+  by_cases hnj : it ∈ removesOn st.kind rj c
+  · exact .inl hnj
+  · by_cases hm : ∃ p r, (p, some r) ∈ mid ∧ it ∈ removesOn st.kind r c
+    · exact .inr hm
+    · exfalso
+      obtain ⟨e, he⟩ := C01_collision_flagged st pre mid post pi pj ri rj c it hsi hsj hnj
+        (fun p r hmem hrem => hm ⟨p, r, hmem, hrem⟩)
+      rw [he] at hok; cases hok
+
+/-! ### the hypotheses are satisfiable: concrete collisions, one per path -/
+
+private def memAdj (v : Int) : Adjustment :=
+  { hasLinux := true, resources := some { memory := some { limit := some v } } }
+private def pidsUpd (id : Str) (v : Int) : Update :=
+  { containerId := id, resources := some { pids := some v } }
+private def isErr : Except Err State → Bool | .error _ => true | .ok _ => false
+
+-- creation adjustment: non-adjacent plugins, an unrelated plugin in between
+example : isErr (run Quirks.fixed (initCreate { id := str "c0" })
+    [(str "10-a", some { adjust := some (memAdj 1) }),
+     (str "20-b", some { adjust := some { annotations := [(str "k", str "v")] } }),
+     (str "30-c", some { adjust := some (memAdj 2) })]) = true := by decide
+
+-- update of a third-party container during an update request (the pids path of fix 1)
+example : isErr (run Quirks.fixed (initUpdate (str "c0") { pids := some 7 })
+    [(str "10-a", some { updates := [pidsUpd (str "other") 1] }),
+     (str "20-b", some { updates := [pidsUpd (str "other") 2] })]) = true := by decide
+
+-- with a removal by the later plugin the same chain succeeds (the hypothesis `hnj` matters)
+example : isErr (run Quirks.fixed (initCreate { id := str "c0" })
+    [(str "10-a", some { adjust := some { annotations := [(str "k", str "v")] } }),
+     (str "20-b", some { adjust := some { annotations := [(str "-k", []), (str "k", str "w")] } })]) = false := by decide
+
+end Nri.Props.C01
+
+namespace Nri.Props.C01
+open Nri Nri.Api Nri.Result Nri.Ledger
+
+/-- every plugin of the chain answers (the harness's chains: an unsubscribed or dropped
+    plugin is simply absent) -/
+def answered (rs : List (Plugin × Response)) : List (Plugin × Option Response) :=
+  rs.map fun (p, r) => (p, some r)
+
+/-- The decidable predicate the correspondence check evaluates on every generated chain
+    (`Ledger.mustFail`) is sound for the model: whenever it says "must fail", `run` fails.
+    So "mustFail ∧ the implementation succeeded" is a disagreement with a proved consequence
+    of the model, not with a heuristic. -/
+theorem C01_mustFail_sound (st : State) (rs : List (Plugin × Response))
+    (h : mustFail st.kind rs = true) : ∃ e, run Quirks.fixed st (answered rs) = .error e := by
+  unfold mustFail anyPair at h
+  simp only [List.any_eq_true, List.mem_range] at h
+  obtain ⟨c, _, i, _, h⟩ := h
+  cases hri : rs[i]? with
+  | none => rw [hri] at h; simp at h
+  | some xi =>
+    obtain ⟨pi, ri⟩ := xi
+    rw [hri] at h
+    simp only [List.any_eq_true, List.mem_range] at h
+    obtain ⟨it, _, j, _, hp⟩ := h
+    unfold unreleasedPair at hp
+    simp only [Bool.and_eq_true, decide_eq_true_eq, hri, List.all_eq_true, List.mem_range] at hp
+    obtain ⟨⟨⟨hij, hsi⟩, hsj⟩, hmid⟩ := hp
+    cases hrj : rs[j]? with
+    | none => rw [hrj] at hsj; simp at hsj
+    | some xj =>
+      obtain ⟨pj, rj⟩ := xj
+      rw [hrj] at hsj
+      have hsi' : it ∈ setsOn true st.kind ri c := by simpa using hsi
+      have hsj' : it ∈ setsOn true st.kind rj c := by simpa using hsj
+      -- split the chain at i and at j
+      obtain ⟨pre, post1, hl1, hlen1⟩ := split_at_getElem? rs i (pi, ri) hri
+      have hj1 : post1[j - i - 1]? = some (pj, rj) := by
+        have := getElem?_append_cons_length pre post1 (pi, ri) (j - i - 1)
+        rw [← hl1, hlen1] at this
+        rw [← this, ← hrj]; congr 1; omega
+      obtain ⟨mid, post, hl2, hlen2⟩ := split_at_getElem? post1 (j - i - 1) (pj, rj) hj1
+      have hrs : answered rs = answered pre ++ (pi, some ri) :: (answered mid ++ (pj, some rj) :: answered post) := by
+        rw [hl1, hl2]; simp [answered]
+      rw [hrs]
+      -- what the range condition says about an index i+1+d
+      have hat : ∀ d, d < j - i → ∀ p r, rs[i + 1 + d]? = some (p, r) → it ∉ removesOn st.kind r c := by
+        intro d hd p r hget
+        have := hmid d hd
+        rw [hget] at this
+        simpa using this
+      apply C01_collision_flagged st (answered pre) (answered mid) (answered post) pi pj ri rj c it hsi' hsj'
+      · -- the later plugin itself: index j = i + 1 + (j - i - 1)
+        apply hat (j - i - 1) (by omega) pj rj
+        rw [← hrj]; congr 1; omega
+      · intro p r hm
+        simp only [answered, List.mem_map] at hm
+        obtain ⟨⟨p', r'⟩, hmem, heq⟩ := hm
+        simp only [Prod.mk.injEq, Option.some.injEq] at heq
+        obtain ⟨rfl, rfl⟩ := heq
+        obtain ⟨d, hget⟩ := List.getElem?_of_mem hmem
+        have hd : d < mid.length := (List.getElem?_eq_some_iff.1 hget).1
+        apply hat d (by omega) p' r'
+        have := getElem?_append_cons_length pre post1 (pi, ri) d
+        rw [← hl1, hlen1] at this
+        rw [this, hl2, List.getElem?_append_left hd]; exact hget
+
+-- the predicate is not vacuous: it fires on a three-plugin chain with an unrelated plugin between
+example : mustFail (.create (str "c0"))
+    [(str "10-a", { adjust := some (memAdj 1) }),
+     (str "20-b", { adjust := some { annotations := [(str "k", str "v")] } }),
+     (str "30-c", { adjust := some (memAdj 2) })] = true := by decide
+
 end Nri.Props.C01
